@@ -203,6 +203,14 @@ func main() {
 		// (net/http ignores the latter; whatever wraps the writer must not change its mind because of it)
 		{"early-hints-first", []string{"write:200xa"}, 200},
 		{"writeheader-again-after-write", []string{"write:100xa", "status:200", "write:100xb"}, 200},
+		// the body handed over through the writer's optional methods (io.WriteString, io.Copy): a wrapper that offers
+		// them must treat the bytes as it treats Write's
+		{"writestring", []string{"wstr:200xa"}, 200},
+		{"write-then-writestring", []string{"write:100xa", "wstr:100xb"}, 200},
+		{"flush-then-writestring", []string{"flush", "wstr:200xa"}, 200},
+		{"copy", []string{"copy:200xa"}, 200},
+		{"write-then-copy", []string{"write:100xa", "copy:100xb"}, 200},
+		{"copy-big", []string{"copy:5000xa"}, 5000},
 	}
 	paths := []string{"/x", "/x.txt", "/n/x", "/x.png"}
 	type reqSpec struct {
